@@ -175,6 +175,12 @@ def run(ck: Check, prog: Program) -> None:
     if not (isinstance(dd, ast.Constant) and dd.value is True and no_override):
         ck.finding('RELATE-STRICT', fj.qualname, 'duplicate response ids accepted', fj.module.rel, fj.node.lineno,
                    'a batch response that repeats an id must raise IdentityError: from_json must build the batch with strict=True')
+    addf = prog.func(V20 + '.BatchResponse._add_ids')
+    ck.functions.add(addf.qualname)
+    dp = _c06.dup_check_problems(prog, addf)
+    ck.ob('RELATE-STRICT', 'BatchResponse._add_ids: every id but None takes part in the duplicate check; a repeated id raises IdentityError', not dp)
+    for line, msg in dp:
+        ck.finding('RELATE-STRICT', addf.qualname, msg[:70], addf.module.rel, line, msg)
     # ---- ORDER-BY-REQUEST -------------------------------------------------------------------------
     _order_by_request(ck, prog, brel, bcfg, breq, bresp)
     # ---- ERROR-RAISED -----------------------------------------------------------------------------
